@@ -1,9 +1,23 @@
 import Driver.Codec
 import HG.Model.Rename
 import HG.Model.Validate
+import HG.Model.TypeCompat
 /-! Line protocol driver: one JSON request per line on stdin, one JSON response per line on stdout.
 Evaluates the model's own definitions; malformed requests yield `{"bad": reason}` (never a default). -/
 open Lean HG Driver
+
+partial def tyOfJson : Json → P TypeCompat.Ty
+  | .str "Any" => pure .any
+  | .str "NoneType" => pure .none_
+  | .str "None" => pure .noneLit
+  | .str "..." => pure .ellipsis
+  | .str "NoAnnotation" => pure .noAnn
+  | .str c => pure (.cls c)
+  | j => do
+    match j.getObjVal? "u", j.getObjVal? "ann" with
+    | .ok u, _ => pure (.union (← list tyOfJson u))
+    | _, .ok t => pure (.annotated (← tyOfJson t))
+    | _, _ => pure (.gen (← str (← field j "g")) (← list tyOfJson (← field j "a")))
 
 def handle (j : Json) : P Json := do
   let op ← str (← field j "op")
@@ -67,6 +81,11 @@ def handle (j : Json) : P Json := do
     match resolveRuntimeSelected g sel with
     | .error _ => pure (Json.mkObj [("rejected", .str "GraphConfigError")])
     | .ok selected => pure (encSpec (effectiveSpec g selected))
+  | "compat" =>
+    let rows ← list tyOfJson (← field j "rows")
+    let cols ← list tyOfJson (← field j "cols")
+    pure (Json.mkObj [("m", .arr (rows.map fun a =>
+      Json.str (String.ofList (cols.map fun b => if TypeCompat.compat a b then '1' else '0'))).toArray)])
   | "rename" =>
     -- rename bookkeeping: original names, optional constructor batch, successive call batches
     let orig ← list str (← field j "orig")
